@@ -310,6 +310,7 @@ def evaluate(frame, P, tgt_eci, vcs, refl, sez_p, sun, slew=None):
 # =============================================================================================
 _TRACE: list = []
 _ENV: dict = {}
+_SCN: dict = {}
 _CAL = {"az": 0.0, "el": 0.0, "rho": 0.0, "rr": 0.0, "maha": 0.0, "bore": 0.0}
 
 
@@ -319,13 +320,8 @@ def _setup():
     from .. import scenario_kit as sk
 
     sk.init()
-    from resonaate.data import setDBPath
     from resonaate.sensors.sensor_base import Sensor
 
-    try:
-        setDBPath("sqlite:///" + sk.new_db_path("c02"))
-    except Exception:  # noqa: BLE001   (already set by a previous call in this process)
-        pass
     orig = Sensor.collectObservations
 
     def monitored(self, estimate_eci, target_agent, background_agents):
@@ -333,14 +329,42 @@ def _setup():
         old = {"boresight": np.array(self.boresight, dtype=float, copy=True), "t_last": float(self.time_last_tasked),
                "host_eci": np.array(host.eci_state, dtype=float, copy=True), "host_time": float(host.time),
                "epoch": host.datetime_epoch, "jd": float(host.julian_date_epoch)}
-        res = orig(self, estimate_eci, target_agent, background_agents)
-        _TRACE.append((old, res))
+        watch = _SCN.get("watch")
+        try:
+            res = orig(self, estimate_eci, target_agent, background_agents)
+        except Exception as e:  # noqa: BLE001
+            if watch is not None:
+                watch.on_raise(self, target_agent, e)
+            raise
+        if watch is None:
+            _TRACE.append((old, res))
+        else:
+            try:     # a monitor never raises into the code it observes
+                watch.on_call(self, old, estimate_eci, target_agent, background_agents, res)
+            except Exception:  # noqa: BLE001
+                import traceback
+
+                watch.harness_error(traceback.format_exc()[-800:])
         return res
 
     monitored._c02 = True  # noqa: SLF001
     if not getattr(orig, "_c02", False):
         Sensor.collectObservations = monitored
     _ENV["ok"] = True
+
+
+def _direct_db():
+    """(Re)connect the per-process database the direct mode's ScenarioClock objects need (sk.build/teardown clear it)."""
+    from .. import scenario_kit as sk
+    from resonaate.data import clearDBPath, setDBPath
+
+    try:
+        clearDBPath()
+    except Exception:  # noqa: BLE001
+        pass
+    sk._drop_db_cache()  # noqa: SLF001
+    setDBPath("sqlite:///" + sk.new_db_path("c02"))
+    _ENV["db"] = True
 
 
 def _rot(t: datetime):
@@ -362,6 +386,8 @@ class Scene:
         from resonaate.scenario.config import GeopotentialConfig, PerturbationsConfig, PropagationConfig
         from resonaate.scenario.config.agent_config import AgentConfig, SensingAgentConfig
 
+        if not _ENV.get("db"):
+            _direct_db()
         self.desc = desc
         self.start = datetime.fromisoformat(desc["start"])
         self.dt = desc["dt"]
@@ -1108,6 +1134,8 @@ def _build(ctx, desc, att0):
 
 def run(ctx):
     _setup()
+    # scenario mode first: ~25% of the wall budget (or its own case cap), then the direct mode with the rest
+    run_scenario_phase(ctx, 0.25 * BUDGET_S["quick" if ctx.quick else "thorough"], ctx.scale(48, 8000))
     rng = ctx.pyrng("c02")
     n = ctx.scale(14_000, 420_000)
     reserve = 6.0 if ctx.quick else 30.0
@@ -1173,7 +1201,191 @@ def replay(ctx, w):
 
     core.install_paths()
     _setup()
+    if w.get("kind") == "scenario":
+        run_scenario(ctx, w["net"], upto=w.get("step"))
+        return
     desc = w["scene"]
     scene = Scene(desc)
     scene.build_targets(w["targets"])
     run_attempt(ctx, scene, w["attempt"], first=False)
+
+
+# =============================================================================================
+# 7. scenario mode: the same postcondition on the calls made inside real multi-step Scenario runs
+# =============================================================================================
+class _ScnCtx:
+    """Forwards to the shard context; monitor and counter names get a ``scenario_`` prefix, mechanism keys stay the same."""
+
+    def __init__(self, ctx):
+        self._c = ctx
+
+    def check(self, cond, key, what, witness=None, mon=None):
+        return self._c.check(cond, key, what, witness, mon=("scenario_" + mon) if mon else None)
+
+    def count(self, name, n=1):
+        self._c.count("scenario_" + name, n)
+
+    def inconclusive_because(self, reason):
+        self._c.inconclusive_because("scenario mode: " + reason)
+
+
+class _LiveScene:
+    """Stands in for ``Scene`` when the call comes from a running Scenario (duck-typed for ``postcondition``)."""
+
+    def __init__(self, watch, P, sid, sensor, tdescs):
+        self._w, self.P, self.tdescs = watch, P, tdescs
+        self.desc = {"sensor_cfg": {"id": sid}}
+        self.sa = type("_SA", (), {"sensors": sensor})()
+
+    def epoch(self, t):
+        return self._w.start + timedelta(seconds=t)
+
+    def frame(self, t, sen_eci):
+        return self._w.frame(t, sen_eci)
+
+
+class ScenarioWatch:
+    def __init__(self, ctx, net, cfg, app):
+        self.ctx, self.sctx, self.net, self.cfg, self.app = ctx, _ScnCtx(ctx), net, cfg, app
+        self.start = datetime.fromisoformat(cfg["time"]["start_timestamp"])
+        glob_bg = bool(cfg["observation"]["background"])
+        self.P = {}
+        for eng in cfg["engines"]:
+            for sc in eng["sensors"]:
+                c = {"id": sc["id"], "platform": sc["platform"], "sensor": dict(sc["sensor"])}
+                if glob_bg:      # ScenarioBuilder: the global observation.background switch turns every sensor's flag on
+                    c["sensor"]["background_observations"] = True
+                self.P[int(sc["id"])] = Params(c)
+        self.step = 0
+        self._frames = {}
+        self.calls_this_step = {}
+        self.carried = {int(i): (np.array(a.sensors.boresight, dtype=float), float(a.sensors.time_last_tasked)) for i, a in app.sensor_agents.items()}
+        self.n_calls = 0
+        self.nontrivial = 0
+
+    def wit(self, sid, tid):
+        return {"kind": "scenario", "net": self.net, "step": self.step, "sensor": int(sid), "target": int(tid)}
+
+    def frame(self, t, sen_eci):
+        key = (t, tuple(float(x) for x in sen_eci[:3]))
+        f = self._frames.get(key)
+        if f is None:
+            ep = self.start + timedelta(seconds=t)
+            f = Frame(_rot(ep), sen_eci)
+            f.sun = eph.sun_j2000(jd_of(ep))
+            self._frames[key] = f
+        return f
+
+    def harness_error(self, txt):
+        self.ctx.inconclusive_because("scenario-mode monitor raised: " + txt)
+
+    def on_raise(self, sensor, target_agent, e):
+        self.ctx.check(False, "collect-raises-" + type(e).__name__, f"collectObservations raised {type(e).__name__}: {e} inside a task-execution job",
+                       self.wit(sensor.host.simulation_id, target_agent.simulation_id), mon="scenario_postcondition")
+
+    def on_call(self, sensor, old, est, tgt, bgs, res):
+        ctx, app = self.ctx, self.app
+        host = sensor.host
+        sid, tid = int(host.simulation_id), int(tgt.simulation_id)
+        self.n_calls += 1
+        ctx.mon("scenario_postcondition")
+        w = self.wit(sid, tid)
+        # what this call returned is what the scenario may carry to the next step
+        self.calls_this_step.setdefault(sid, []).append((np.array(res[2], dtype=float, copy=True), float(res[3])))
+        if host.sensor_time_bias_event_queue:
+            ctx.count("scenario_calls_time_bias_skipped")
+            return
+        t = old["host_time"]
+        agents = [tgt, *bgs]
+        ids = [int(a.simulation_id) for a in agents]
+        # ---- the inputs the tasking path handed to the sensor -----------------------------------
+        ok = len(set(ids)) == len(ids)
+        ctx.check(ok, "scenario-background-contains-primary" if ids.count(tid) > 1 else "scenario-background-duplicates",
+                  f"step {self.step}: background list {ids[1:]} of the job for primary {tid} (sensor {sid}) repeats a target", w, mon="scenario_inputs")
+        if not ok:
+            return
+        same_t = all(float(a.time) == t for a in agents) and t == float(app.clock.time)
+        ctx.check(same_t, "scenario-agent-epoch-mismatch", f"step {self.step}: sensor time {t}, clock {float(app.clock.time)}, target times {[float(a.time) for a in agents]}",
+                  w, mon="scenario_inputs")
+        cur = all(np.array_equal(np.asarray(a.eci_state, dtype=float), np.asarray(app.target_agents[i].eci_state, dtype=float)) for a, i in zip(agents, ids)) \
+            and np.array_equal(old["host_eci"], np.asarray(app.sensor_agents[sid].eci_state, dtype=float))
+        ctx.check(cur, "scenario-stale-truth-state", f"step {self.step}: a target/sensor state inside the job differs from the scenario's current truth state", w, mon="scenario_inputs")
+        est_now = np.asarray(app.estimate_agents[tid].eci_state, dtype=float)
+        ctx.check(np.array_equal(np.asarray(est, dtype=float), est_now), "scenario-pointing-not-estimate",
+                  f"step {self.step}: sensor {sid} was commanded to point at {np.asarray(est, dtype=float).tolist()} but the current estimate of target {tid} is {est_now.tolist()} "
+                  f"(truth {np.asarray(tgt.eci_state, dtype=float).tolist()})", w, mon="scenario_inputs")
+        cb, ct = self.carried[sid]
+        ctx.check(np.array_equal(old["boresight"], cb) and old["t_last"] == ct, "scenario-old-pointing-state-stale",
+                  f"step {self.step}: sensor {sid} enters the attempt with boresight {old['boresight'].tolist()} / time_last_tasked {old['t_last']} but the scenario "
+                  f"left it at {cb.tolist()} / {ct} after the previous step", w, mon="scenario_carry")
+        # ---- the postcondition itself -------------------------------------------------------------
+        tdescs = [{"id": i, "vcs": float(a.visual_cross_section), "refl": float(a.reflectivity)} for a, i in zip(agents, ids)]
+        att = {"t": t, "sen_eci": old["host_eci"].tolist(), "est": [float(x) for x in est],
+               "targets": [[float(x) for x in a.eci_state] for a in agents]}
+        live = _LiveScene(self, self.P[sid], sid, sensor, tdescs)
+        nt = postcondition(self.sctx, live, att, old, res, w)
+        self.nontrivial += bool(nt)
+        ctx.case(("scn", self.net["start"], self.net["seed"], self.step, sid, tid), nontrivial=bool(nt))
+
+    def end_step(self):
+        """After stepForward: every tasked sensor carries the pointing state one of its attempts of this step returned."""
+        for sid, results in self.calls_this_step.items():
+            sens = self.app.sensor_agents[sid].sensors
+            b, tl = np.array(sens.boresight, dtype=float), float(sens.time_last_tasked)
+            ok = any(np.array_equal(b, rb) and tl == rt for rb, rt in results)
+            self.ctx.check(ok, "scenario-pointing-state-not-carried",
+                           f"step {self.step}: after the step sensor {sid} has boresight {b.tolist()} / time_last_tasked {tl}, none of the {len(results)} "
+                           f"state(s) its attempt(s) returned: {[(rb.tolist(), rt) for rb, rt in results][:2]}", self.wit(sid, -1), mon="scenario_carry")
+            self.carried[sid] = (b, tl)
+        self.calls_this_step = {}
+
+
+def run_scenario(ctx, net, upto=None):
+    """One real multi-step Scenario with the postcondition attached; returns the number of watched calls."""
+    from .. import netkit
+    from .. import scenario_kit as sk
+
+    _setup()
+    cfg = netkit.net_cfg(net)
+    _ENV["db"] = False          # sk.build / teardown replace the process-wide database
+    try:
+        b = sk.build(cfg, base_seed=net["seed"])
+    except Exception as e:  # noqa: BLE001
+        ctx.count("scenario_build_failed")
+        ctx.add_to_set("scenario_run_errors", f"build: {type(e).__name__}: {str(e)[:160]}")
+        return 0
+    watch = ScenarioWatch(ctx, net, cfg, b.app)
+    _SCN["watch"] = watch
+    try:
+        for k in range(1, (upto or net["nsteps"]) + 1):
+            watch.step = k
+            b.app.stepForward()
+            watch.end_step()
+        ctx.count("scenario_runs_completed")
+    except Exception as e:  # noqa: BLE001
+        if "LinAlgError" in type(e).__name__ or "invalid numeric entries" in str(e):
+            ctx.count("scenario_runs_diverged_filter")      # hostile estimate settings; not this property's subject
+        else:
+            ctx.count("scenario_runs_raised")
+            ctx.add_to_set("scenario_run_errors", f"{type(e).__name__}: {str(e)[:160]}")
+    finally:
+        _SCN["watch"] = None
+        sk.teardown(b)
+    ctx.count("scenario_policy_" + net["policy"])
+    return watch.n_calls
+
+
+def run_scenario_phase(ctx, budget_s, max_nets):
+    from .. import netkit
+
+    import time
+
+    rng = ctx.pyrng("c02-scenario")
+    t_end = time.time() + budget_s
+    n = 0
+    while n < max_nets and time.time() < t_end and ctx.time_left() > 5:
+        net = netkit.gen_network(rng)
+        net["nsteps"] = rng.randrange(3, 7)     # long enough for sensors to keep (and be limited by) their boresight
+        run_scenario(ctx, net)
+        n += 1
+    ctx.count("scenario_networks", n)
